@@ -31,6 +31,8 @@ pub enum Event {
         old: String,
         new: String,
         via: &'static str,
+        /// the OS thread that wrote (see `thread_tag`)
+        thread: u64,
     },
     /// a task instance is created
     Create {
